@@ -116,7 +116,15 @@ def make_cfgs(ctx):
             x = tuple(rng.randint(-40, 40) for _ in range(3))
             if all(sum(a * b for a, b in zip(x, t)) % PDEN != 0 for t in HALF_TRANSLATIONS):
                 probes.add(x)
-        cfgs.append(dict(id=k + 1, entry=entry, S=S, U=U, Z=Z, C=sym_pd_matrix(rng), dirs=sorted(dirs),
+        Cm = sym_pd_matrix(rng)
+        if U != I3:
+            # tensors drawn in the catalogue setting and expressed in the sheared basis (Zh' = U^-T Zh U^T,
+            # Cc' = U^-T Cc U^-1): the physical tensors are as moderate as in every other configuration
+            Ua = np.array(U, dtype=int)
+            Ui = np.rint(np.linalg.inv(Ua)).astype(int)
+            Z = [(Ui.T @ np.array(z, dtype=int) @ Ua.T).tolist() for z in Z]
+            Cm = (Ui.T @ np.array(Cm, dtype=int) @ Ui).tolist()
+        cfgs.append(dict(id=k + 1, entry=entry, S=S, U=U, Z=Z, C=Cm, dirs=sorted(dirs),
                          lams=[-1, 2, 7], box=2, probes=sorted(probes), pden=PDEN, mode=mode))
     for fam in (("nacl", "naclg", "cscl"), ("wz", "tetab", "tric")):
         for c in cfgs:
